@@ -5,7 +5,7 @@
    (state after an arbitrary label list — any interleaving of any number of clients — from any
    well-formed store). The ghost log is newest first. *)
 From KB Require Import Model.RevSys Model.KeySys Model.C01Cases Model.C02Cases.
-From KB Require Import Proofs.RevSys Proofs.KeySys Proofs.KeySysLog Proofs.KeySysChain Proofs.KeySysProps Proofs.C02Cases Proofs.SchedCases.
+From KB Require Import Proofs.RevSys Proofs.KeySys Proofs.KeySysLog Proofs.KeySysChain Proofs.KeySysProps Proofs.C02Cases Proofs.KeySysUniq Proofs.SchedCases Proofs.SchedLink Proofs.KeySysHdr Proofs.TsoImage.
 Local Open Scope N_scope.
 
 (* RevSys: no two allocations ever return the same revision, whatever the threads and the sequencer do *)
@@ -23,11 +23,30 @@ Print Assumptions C02_tso_increasing.
 Theorem C02_tso_unique : forall ls d0, NoDup (map snd (t_log (trun false ls (tinit d0)))).
 Proof. exact tso_dealt_unique. Qed.
 Print Assumptions C02_tso_unique.
+(* the read revision never moves backwards, whoever calls Commit with whatever revision (raise-only loop, repo 1eb892a) *)
+Theorem C02_tso_committed_monotone : forall plain ls s, t_committed s <= t_committed (trun plain ls s).
+Proof. exact t_committed_mono. Qed.
+Print Assumptions C02_tso_committed_monotone.
+Example C02_tso_commit_stale_revision :
+  t_committed (trun false [TCommit 1 20; TLoadC 1; TCasC 1; TCommit 2 15; TLoadC 2; TCasC 2; TLoad 2; TCas 2] (tinit 10)) = 20.
+Proof. vm_compute. reflexivity. Qed.
 (* … and the compare-and-swap is what makes it so: with a plain store the same schedule deals 13 twice *)
 Example C02_tso_plain_store_refuted :
   map snd (t_log (trun true tso_plain_witness (tinit 10))) = [13; 13; 12; 11]
   /\ map snd (t_log (trun false tso_plain_witness (tinit 10))) = [14; 13; 12; 11].
 Proof. exact tso_plain_store_refuted. Qed.
+
+(* the model statement behind case kind C2Tso (tso stress: one list of dealt revisions per goroutine): for every run
+   of the allocator and any distinct goroutines, the per-goroutine projections of the Deal log satisfy tso_ok (each
+   strictly increasing, all pairwise distinct). The case kind's check (tso_check = each list increasing) is what
+   every interleaving allows per goroutine, it is not a model run: C2Tso is judged by its oracle only (see gaps) *)
+Theorem C02_tso_model_ok : forall ls d0 ts, NoDup ts ->
+  tso_ok (per_thread ts (t_log (trun false ls (tinit d0)))) = true.
+Proof. exact tso_model_ok. Qed.
+Print Assumptions C02_tso_model_ok.
+Example C02_tso_model_ex :
+  per_thread [0; 1] (t_log (trun false tso_plain_witness (tinit 10))) = [[11; 13]; [12; 14]].
+Proof. exact tso_model_ex. Qed.
 
 (* KeySys: the revisions stamped on write attempts (EDealt entries, incl. the asynchronous rewrite's) are pairwise distinct *)
 Theorem C02_unique : forall cidx0 d0 store s, reach cidx0 d0 store s -> NoDup (dealt_log (log s)).
@@ -42,6 +61,51 @@ Theorem C02_realtime : forall cidx0 d0 store s, reach cidx0 d0 store s ->
     r1 < r2.
 Proof. exact k_realtime. Qed.
 Print Assumptions C02_realtime.
+
+(* real-time order on what the requests REPORT: if request 1 was answered before request 2 was invoked, the header
+   of 1's answer is below the header of 2's answer (failure paths included: there the header is
+   max(own revision, latest mod revision of the key)) *)
+Theorem C02_realtime_headers : forall cidx0 d0 store s, reach cidx0 d0 store s ->
+  forall l3 t2 r2 l2' q2 l2 t1 r1 l0 h1 h2,
+    log s = l3 ++ EReturn t2 r2 :: l2' ++ EInvoke t2 q2 :: l2 ++ EReturn t1 r1 :: l0 ->
+    resp_hdr r1 = Some h1 -> resp_hdr r2 = Some h2 -> h1 < h2.
+Proof. exact hdr_realtime. Qed.
+Print Assumptions C02_realtime_headers.
+(* behind it: the header of an answer is at least a revision the request was stamped with (cur_dealt t log: the
+   revisions dealt to t since its EInvoke) and at most the allocation counter *)
+Theorem C02_header_own_revision : forall cidx0 d0 store s, reach cidx0 d0 store s ->
+  forall t r h, thr s t = PReturn r -> resp_hdr r = Some h ->
+    (exists x, In x (cur_dealt t (log s)) /\ x <= h) /\ h <= dealt (rs s).
+Proof. exact hdr_bounds. Qed.
+Print Assumptions C02_header_own_revision.
+
+(* reads are functions of the state, not labels. Read then write: a request invoked after state s reports a header
+   above the header of every Get served in s *)
+Theorem C02_realtime_read_then_write : forall cidx0 d0 store s, reach cidx0 d0 store s ->
+  forall ls' l3 t2 r2 l2' q2 l2 h2,
+    log (krun cidx0 ls' s) = l3 ++ EReturn t2 r2 :: l2' ++ EInvoke t2 q2 :: l2 ++ log s ->
+    resp_hdr r2 = Some h2 ->
+    forall k rev, rd_hdr (read_get s k rev) < h2.
+Proof. exact read_then_write. Qed.
+Print Assumptions C02_realtime_read_then_write.
+(* Write then read: the full statement "a Get issued after a write's answer reports at least the write's header" … *)
+Definition C02_realtime_write_then_read_full_statement : Prop := write_then_read_full.
+(* … is refuted on the faithful model: the write's revision is not readable while an earlier revision is unresolved,
+   and a Get of another key then reports the (lower) revision reads are served at *)
+Theorem C02_realtime_write_then_read_refuted : ~ write_then_read_full.
+Proof. exact write_then_read_refuted. Qed.
+Print Assumptions C02_realtime_write_then_read_refuted.
+Example C02_write_then_read_witness :
+  let s := krun true wr_labels (kinit 10 ex_store) in
+  thr s 0 = PReturn (RespUpdate 12 true None) /\ committed (rs s) = 10 /\ pc_rev (thr s 1) = Some 11 /\
+  read_get (kstep true s (LReturn 0)) 1 0 = RdOk 10 [] /\ enabled s LSeqTake = false.
+Proof. exact write_then_read_witness. Qed.
+(* the true statement: a read reports at least the revision reads are served at (by construction of read_get), so at
+   least the write's header once that revision is readable (when that happens: C04) *)
+Theorem C02_realtime_write_then_read_when_readable : forall s h k rev,
+  h <= committed (rs s) -> h <= rd_hdr (read_get s k rev).
+Proof. exact write_then_read_caught_up. Qed.
+Print Assumptions C02_realtime_write_then_read_when_readable.
 
 (* write responses: the header revision is at least the mod revision of the kv in the response *)
 Theorem C02_header_bound : forall cidx0 d0 store s, reach cidx0 d0 store s -> returns_bounded (log s).
@@ -77,9 +141,9 @@ Print Assumptions C02_key_monotone.
 
 (* the read-case oracle: agreement with the model leaves it at None or at the finding's code 1, and code 1
    only on the finding's signature *)
-Theorem C02_read_oracle_sound_partial : forall c, read_check c = true -> read_oracle c = None \/ read_oracle c = Some 1.
+Theorem C02_read_oracle_sound : forall c, read_check c = true -> read_oracle c = None \/ read_oracle c = Some 1.
 Proof. exact read_oracle_sound. Qed.
-Print Assumptions C02_read_oracle_sound_partial.
+Print Assumptions C02_read_oracle_sound.
 Theorem C02_read_oracle_f1_signature : forall c, read_oracle c = Some 1 ->
   exists rev h kvs, In (RdList rev, RdOk h kvs) (rc_reads c) /\ h < rev /\ rd_bound (RdOk h kvs) = false.
 Proof. exact read_oracle_f1_signature. Qed.
@@ -87,12 +151,31 @@ Print Assumptions C02_read_oracle_f1_signature.
 
 (* the oracle lemma for schedule cases. Full statement (not proved, see "gaps"): *)
 Definition C02_sched_oracle_sound_full_statement : Prop :=
-  forall c, sched_valid c -> sched_check c = true -> rev_ok c = true.
+  forall c, sched_check c = true -> rev_ok c = true.
 (* proved clause: header >= kv revision inside every single response of every request record *)
-Theorem C02_sched_oracle_header_sound_partial : forall c, sched_valid c -> sched_check c = true ->
+Theorem C02_sched_oracle_header_sound_partial : forall c, sched_check c = true ->
   forallb (fun r => header_ok (rr_resp r)) (case_records c) = true.
-Proof. exact sched_headers_sound. Qed.
+Proof. exact sched_headers_sound_checked. Qed.
 Print Assumptions C02_sched_oracle_header_sound_partial.
+(* proved clauses: the revisions read off the answers (successes, failed creates, deletes of absent keys) are
+   pairwise distinct and lie between the initial revision and the marker *)
+Theorem C02_sched_oracle_unique_sound_partial : forall c, sched_check c = true ->
+  nodupb (exact_revs (case_records c)) = true /\
+  forallb (fun x => (sc_d0 c <? x) && (x <? sc_marker c)) (exact_revs (case_records c)) = true.
+Proof. exact sched_unique_sound_checked. Qed.
+Print Assumptions C02_sched_oracle_unique_sound_partial.
+(* the same on the model's log, for every label list: the revisions of the answered requests are pairwise distinct *)
+Theorem C02_answered_revisions_unique : forall cidx0 ls d0 store, wf_store d0 store ->
+  let s := krun cidx0 ls (kinit d0 store) in
+  NoDup (ret_revs (log s)) /\ forall x, In x (ret_revs (log s)) -> d0 < x <= dealt (rs s).
+Proof. exact ret_revs_unique. Qed.
+Print Assumptions C02_answered_revisions_unique.
+
+(* proved clause records_complete: every request of the case got exactly one record *)
+Theorem C02_sched_oracle_records_complete_sound_partial : forall c, sched_check c = true ->
+  records_complete c (case_records c) = true.
+Proof. exact sched_records_complete_sound_checked. Qed.
+Print Assumptions C02_sched_oracle_records_complete_sound_partial.
 
 (* ----- non-vacuity ----- *)
 Example C02_ex_reach : reach true 10 ex_store ex_state.
@@ -115,4 +198,25 @@ Example C02_ex_realtime :
 Proof. vm_compute. reflexivity. Qed.
 (* a failure-path response whose header is the max of the allocated and the latest mod revision *)
 Example C02_ex_header : thr ex_state 1 = PReturn (RespDelete 12 false (Some ([9], 12))) /\ dealt_log (log ex_state) = [13; 12; 11].
+Proof. vm_compute. split; reflexivity. Qed.
+(* C02_realtime_headers on a concrete history: thread 0's create is answered (header 11), then thread 1's create of
+   the same key is invoked, refused and answered with header 12 *)
+Example C02_ex_realtime_headers :
+  let s := krun true [LInvoke 0 (RqCreate 2 [1]); LDeal 0; LEngine 0 EnvOk; LNotify 0; LReturn 0;
+                      LInvoke 1 (RqCreate 2 [2]); LDeal 1; LEngine 1 EnvOk; LNotify 1; LReturn 1] (kinit 10 ex_store) in
+  log s = [] ++ EReturn 1 (RespCreate 12 false) :: [ENotified 1 12 false; EDealt 1 12] ++ EInvoke 1 (RqCreate 2 [2]) :: []
+          ++ EReturn 0 (RespCreate 11 true)
+          :: [ENotified 0 11 true; EApplied 0 (Some (RqCreate 2 [1])) 2 ACreate 11 false [1] None; EDealt 0 11; EInvoke 0 (RqCreate 2 [1])].
+Proof. vm_compute. reflexivity. Qed.
+(* a non-empty List answer within the bound *)
+Example C02_ex_list : read_list ex_state [0; 1] 0 = RdOk 12 [(0, [9], 12)]
+  /\ rd_bound (read_list ex_state [0; 1] 0) = true.
+Proof. vm_compute. split; reflexivity. Qed.
+(* a read case the model reproduces and the oracle classifies as the finding's signature (code 1) *)
+Example C02_ex_read_f1 :
+  let c := {| rc_cidx0 := true; rc_d0 := 10; rc_keys := [0];
+              rc_init := [(0, {| k_idx := Some (5, false); k_vers := [(5, [1]); (3, [2])] |})];
+              rc_writes := [(RqUpdate 0 [9] 5, RespUpdate 11 true None)];
+              rc_reads := [(RdList 11, RdOk 10 [(0, [9], 11)])] |} in
+  read_check c = true /\ read_oracle c = Some 1.
 Proof. vm_compute. split; reflexivity. Qed.
